@@ -54,7 +54,7 @@ def main():
 
     props = [("item", c20.prop_item_refs), ("dsmc", c20.prop_dataset_megacomplex), ("group", c20.prop_dataset_group),
              ("param", c20.prop_param_refs), ("uniq", c20.prop_unique_exclusive)]
-    res = {"evaluations": 0, "distinct": 0, "discards": {}, "tags": {}, "failures": [], "failure_counts": {}, "errors": [], "wall": 0.0}
+    res = {"evaluations": 0, "distinct": 0, "discards": {}, "tags": {}, "failures": [], "failure_counts": {}, "errors": [], "wall": 0.0, "nontrivial": []}
     seen: set = set()
     t0 = time.time()
 
@@ -77,6 +77,8 @@ def main():
         for sub, fn in props:
             try:
                 out = fn(case) or {}
+                if out.get("nontrivial") and (not res["nontrivial"] or res["nontrivial"][-1] != dg):
+                    res["nontrivial"].append(dg)
                 for t in out.get("tags", []):
                     res["tags"][t] = res["tags"].get(t, 0) + 1
             except Discard as d:
